@@ -114,12 +114,15 @@ Section Proofs.
   Definition wire_ok_rsp (p : rsppkt) : Prop := wire_rsp p = Some p.
   (* codec round trip of the argument list: the dispatcher's decoder, run over the proxy's encoding of all
      arguments, yields the in arguments *)
-  Definition args_roundtrip (f : fsig) (args : list val) : Prop :=
-    exists rest, dec_list e (in_fields f) (zeros e (in_fields f)) (enc_fields e (all_fields f) args) = DOk (ins_of f args) rest.
+  (* general form: the dispatcher decodes the in arguments [ins'] from the proxy's encoding of all arguments *)
+  Definition args_decode (f : fsig) (args ins' : list val) : Prop :=
+    exists rest, dec_list e (in_fields f) (zeros e (in_fields f)) (enc_fields e (all_fields f) args) = DOk ins' rest.
+  Definition args_roundtrip (f : fsig) (args : list val) : Prop := args_decode f args (ins_of f args).
   (* codec round trip of the results: the proxy's decoder (into the caller's variables), run over the dispatcher's
      encoding of return value and out arguments, yields them *)
-  Definition results_roundtrip (f : fsig) (args : list val) (vs : list val) : Prop :=
-    exists rest, dec_list e (rsp_fields f) (zeros e (ret_fields f) ++ outs_of f args) (enc_fields e (rsp_fields f) vs) = DOk vs rest.
+  Definition results_decode (f : fsig) (args : list val) (vs vs' : list val) : Prop :=
+    exists rest, dec_list e (rsp_fields f) (zeros e (ret_fields f) ++ outs_of f args) (enc_fields e (rsp_fields f) vs) = DOk vs' rest.
+  Definition results_roundtrip (f : fsig) (args : list val) (vs : list val) : Prop := results_decode f args vs vs.
 
   Definition ret_shape (f : fsig) (ret : option val) : Prop :=
     match fs_ret f, ret with Some _, Some _ | None, None => True | _, _ => False end.
@@ -141,10 +144,27 @@ Section Proofs.
     {| p_ver := q_ver q; p_ptype := q_ptype q; p_id := q_id q; p_mtype := 0; p_ret := c;
        p_buf := []; p_status := []; p_desc := m; p_ctx := [] |}.
 
-  Definition core_events (Pc Ps : pfilters ev unit) (f : fsig) (args : list val) (o : opts) (reply : bool) : list ev :=
-    before Pc ++ [EInvoke] ++ before Ps ++ [EDispatch; EImpl (fs_name f) (ins_of f args) (ctx_of o) (status_of o)]
+  Definition core_events_at (Pc Ps : pfilters ev unit) (f : fsig) (ins' : list val) (o : opts) (reply : bool) : list ev :=
+    before Pc ++ [EInvoke] ++ before Ps ++ [EDispatch; EImpl (fs_name f) ins' (ctx_of o) (status_of o)]
       ++ after Ps ++ (if reply then [EReply] else []) ++ after Pc.
+  Definition core_events (Pc Ps : pfilters ev unit) (f : fsig) (args : list val) (o : opts) (reply : bool) : list ev :=
+    core_events_at Pc Ps f (ins_of f args) o reply.
 
+  Lemma dispatch_decoded i f args ins' o ow id sv t :
+    find_fn i (fs_name f) = Some f -> args_decode f args ins' ->
+    dispatch i (mkreq f args o ow id sv t) =
+    (let q := mkreq f args o ow id sv t in
+     match impl (fs_name f) ins' (ctx_of o) (status_of o) with
+     | IOk ret outs rc rs =>
+         DispOk {| p_ver := q_ver q; p_ptype := 0; p_id := q_id q; p_mtype := 0; p_ret := 0;
+                   p_buf := enc_fields e (rsp_fields f) (results ret outs); p_status := rs; p_desc := []; p_ctx := rc |}
+     | IFail c m => DispErr c m false
+     end, [EImpl (fs_name f) ins' (ctx_of o) (status_of o)]).
+  Proof.
+    intros Hf [rest Hrt]. unfold EndToEnd.dispatch. cbn [q_func EndToEnd.mkreq q_buf q_ctx q_status].
+    rewrite Hf, Hrt. destruct (impl _ _ _ _) as [ret outs rc rs|c m]; [|reflexivity].
+    destruct ret; reflexivity.
+  Qed.
   Lemma dispatch_reaches_impl i f args o ow id sv t :
     find_fn i (fs_name f) = Some f -> args_roundtrip f args ->
     dispatch i (mkreq f args o ow id sv t) =
@@ -155,14 +175,40 @@ Section Proofs.
                    p_buf := enc_fields e (rsp_fields f) (results ret outs); p_status := rs; p_desc := []; p_ctx := rc |}
      | IFail c m => DispErr c m false
      end, [EImpl (fs_name f) (ins_of f args) (ctx_of o) (status_of o)]).
-  Proof.
-    intros Hf [rest Hrt]. unfold EndToEnd.dispatch. cbn [q_func EndToEnd.mkreq q_buf q_ctx q_status].
-    rewrite Hf, Hrt. destruct (impl _ _ _ _) as [ret outs rc rs|c m]; [|reflexivity].
-    destruct ret; reflexivity.
-  Qed.
+  Proof. apply dispatch_decoded. Qed.
 
   Lemma oneway_flag f args o ow id sv t : is_oneway (mkreq f args o ow id sv t) = ow.
   Proof. unfold is_oneway. cbn. destruct ow; reflexivity. Qed.
+
+  (* what the proxy hands back from the decoded result list *)
+  Definition ret_of (f : fsig) (vs : list val) : option val := match fs_ret f with Some _ => Some (hd (VInt 0) vs) | None => None end.
+  Definition outs_from (f : fsig) (vs : list val) : list val := match fs_ret f with Some _ => tl vs | None => vs end.
+
+  (* general form: whatever the two decoders yield ([ins'] at the dispatcher, [vs'] at the proxy) *)
+  Theorem transparent_ok_decoded (Pc Ps : pfilters ev unit) i f args ins' o id sv t ret outs rc rs vs' :
+    let q := mkreq f args o false id sv t in
+    find_fn i (fs_name f) = Some f ->
+    wire_ok_req q -> args_decode f args ins' ->
+    impl (fs_name f) ins' (ctx_of o) (status_of o) = IOk ret outs rc rs ->
+    results_decode f args (results ret outs) vs' ->
+    wire_ok_rsp (ok_reply f q ret outs rc rs) ->
+    call (filters_of inv_res Pc) (filters_of disp_res Ps) i f args o false id sv t =
+    (COk (ret_of f vs') (outs_from f vs') (maps_after o rc rs), core_events_at Pc Ps f ins' o true).
+  Proof.
+    cbn zeta. intros Hf Hwq Hargs Himpl [rest Hres] Hwp.
+    rewrite call_pass. unfold inv_result, inv_events, srv_reply, srv_events.
+    rewrite Hwq. rewrite oneway_flag. rewrite (dispatch_decoded i f args ins' o false id sv t Hf Hargs), Himpl.
+    cbn [fst snd reply_of p_ver p_ptype p_id p_mtype p_ret p_buf p_status p_desc p_ctx].
+    change (q_ptype (mkreq f args o false id sv t)) with c_c01_TARSNORMAL.
+    unfold ok_reply in Hwp. change (q_ptype (mkreq f args o false id sv t)) with c_c01_TARSNORMAL in Hwp.
+    cbn [q_ver q_id EndToEnd.mkreq] in *. unfold wire_ok_rsp in Hwp. rewrite Hwp.
+    cbn [p_id]. rewrite Z.eqb_refl. unfold map_reply. cbn [p_ret]. cbn [Z.eqb].
+    unfold core_events_at. f_equal.
+    - unfold EndToEnd.proxy_finish. cbn [p_buf p_ctx p_status]. rewrite Hres.
+      unfold maps_after, ret_of, outs_from.
+      destruct o as [|c [|st [|x o']]]; reflexivity.
+    - norm_app.
+  Qed.
 
   (* C01_transparent_ok *)
   Theorem transparent_ok (Pc Ps : pfilters ev unit) i f args o id sv t ret outs rc rs :
@@ -175,25 +221,38 @@ Section Proofs.
     call (filters_of inv_res Pc) (filters_of disp_res Ps) i f args o false id sv t =
     (COk ret outs (maps_after o rc rs), core_events Pc Ps f args o true).
   Proof.
-    cbn zeta. intros Hf Hwq Hargs Himpl Hshape [rest Hres] Hwp.
-    rewrite call_pass. unfold inv_result, inv_events, srv_reply, srv_events.
-    rewrite Hwq. rewrite oneway_flag. rewrite (dispatch_reaches_impl i f args o false id sv t Hf Hargs), Himpl.
-    cbn [fst snd reply_of p_ver p_ptype p_id p_mtype p_ret p_buf p_status p_desc p_ctx].
-    change (q_ptype (mkreq f args o false id sv t)) with c_c01_TARSNORMAL.
-    unfold ok_reply in Hwp. change (q_ptype (mkreq f args o false id sv t)) with c_c01_TARSNORMAL in Hwp.
-    cbn [q_ver q_id EndToEnd.mkreq] in *. unfold wire_ok_rsp in Hwp. rewrite Hwp.
-    cbn [p_id]. rewrite Z.eqb_refl. unfold map_reply. cbn [p_ret]. cbn [Z.eqb].
-    unfold core_events. f_equal.
-    - unfold EndToEnd.proxy_finish. cbn [p_buf p_ctx p_status]. rewrite Hres.
-      unfold ret_shape in Hshape. unfold maps_after, results.
-      destruct (fs_ret f), ret; try contradiction; cbn [hd tl];
-        destruct o as [|c [|st [|x o']]]; reflexivity.
-    - norm_app.
+    cbn zeta. intros Hf Hwq Hargs Himpl Hshape Hres Hwp.
+    rewrite (transparent_ok_decoded Pc Ps i f args (ins_of f args) o id sv t ret outs rc rs (results ret outs)); try assumption.
+    unfold core_events. f_equal. unfold ret_of, outs_from, results. unfold ret_shape in Hshape.
+    destruct (fs_ret f), ret; try contradiction; reflexivity.
   Qed.
 
   (* what the caller reads from the error: the message, or a framework-made text when the message is empty *)
   Definition err_seen (c : Z) (m : bytes) : call_res :=
     match m with [] => CErr c sys_msg true | _ => CErr c m false end.
+
+  (* general forms of the failure and one-way clauses *)
+  Theorem transparent_err_decoded (Pc Ps : pfilters ev unit) i f args ins' o id sv t c m :
+    let q := mkreq f args o false id sv t in
+    find_fn i (fs_name f) = Some f ->
+    wire_ok_req q -> args_decode f args ins' ->
+    impl (fs_name f) ins' (ctx_of o) (status_of o) = IFail c m ->
+    c <> 0%Z ->
+    wire_ok_rsp (err_reply q c m) ->
+    call (filters_of inv_res Pc) (filters_of disp_res Ps) i f args o false id sv t =
+    (err_seen c m, core_events_at Pc Ps f ins' o true).
+  Proof.
+    cbn zeta. intros Hf Hwq Hargs Himpl Hc Hwp.
+    rewrite call_pass. unfold inv_result, inv_events, srv_reply, srv_events.
+    rewrite Hwq. rewrite oneway_flag. rewrite (dispatch_decoded i f args ins' o false id sv t Hf Hargs), Himpl.
+    cbn [fst snd reply_of]. unfold err_reply, wire_ok_rsp in Hwp. rewrite Hwp.
+    cbn [p_id]. rewrite Z.eqb_refl. unfold map_reply. cbn [p_ret p_desc].
+    destruct (c =? 0)%Z eqn:Hc0; [apply Z.eqb_eq in Hc0; contradiction|].
+    unfold core_events_at. f_equal.
+    - unfold err_seen. destruct m as [|b m]; destruct (c =? 1)%Z eqn:H1;
+        try (apply Z.eqb_eq in H1; subst c); reflexivity.
+    - norm_app.
+  Qed.
 
   (* C01_transparent_err *)
   Theorem transparent_err (Pc Ps : pfilters ev unit) i f args o id sv t c m :
@@ -205,17 +264,19 @@ Section Proofs.
     wire_ok_rsp (err_reply q c m) ->
     call (filters_of inv_res Pc) (filters_of disp_res Ps) i f args o false id sv t =
     (err_seen c m, core_events Pc Ps f args o true).
+  Proof. cbn zeta. intros. now apply transparent_err_decoded. Qed.
+
+  Theorem oneway_decoded (Pc Ps : pfilters ev unit) i f args ins' o id sv t :
+    let q := mkreq f args o true id sv t in
+    find_fn i (fs_name f) = Some f ->
+    wire_ok_req q -> args_decode f args ins' ->
+    call (filters_of inv_res Pc) (filters_of disp_res Ps) i f args o true id sv t =
+    (CSent, core_events_at Pc Ps f ins' o false).
   Proof.
-    cbn zeta. intros Hf Hwq Hargs Himpl Hc Hwp.
-    rewrite call_pass. unfold inv_result, inv_events, srv_reply, srv_events.
-    rewrite Hwq. rewrite oneway_flag. rewrite (dispatch_reaches_impl i f args o false id sv t Hf Hargs), Himpl.
-    cbn [fst snd reply_of]. unfold err_reply, wire_ok_rsp in Hwp. rewrite Hwp.
-    cbn [p_id]. rewrite Z.eqb_refl. unfold map_reply. cbn [p_ret p_desc].
-    destruct (c =? 0)%Z eqn:Hc0; [apply Z.eqb_eq in Hc0; contradiction|].
-    unfold core_events. f_equal.
-    - unfold err_seen. destruct m as [|b m]; destruct (c =? 1)%Z eqn:H1;
-        try (apply Z.eqb_eq in H1; subst c); reflexivity.
-    - norm_app.
+    cbn zeta. intros Hf Hwq Hargs.
+    rewrite call_pass. unfold inv_result, inv_events, srv_events.
+    rewrite Hwq. rewrite oneway_flag. rewrite (dispatch_decoded i f args ins' o true id sv t Hf Hargs).
+    cbn [snd]. unfold core_events_at. f_equal. norm_app.
   Qed.
 
   (* C01_oneway: whatever the implementation does, it is called once with the caller's inputs, nothing is replied *)
@@ -225,11 +286,5 @@ Section Proofs.
     wire_ok_req q -> args_roundtrip f args ->
     call (filters_of inv_res Pc) (filters_of disp_res Ps) i f args o true id sv t =
     (CSent, core_events Pc Ps f args o false).
-  Proof.
-    cbn zeta. intros Hf Hwq Hargs.
-    rewrite call_pass. unfold inv_result, inv_events, srv_events.
-    rewrite Hwq. rewrite oneway_flag. rewrite (dispatch_reaches_impl i f args o true id sv t Hf Hargs).
-    cbn [snd]. unfold core_events. f_equal. norm_app.
-  Qed.
-
+  Proof. cbn zeta. intros. now apply oneway_decoded. Qed.
 End Proofs.
